@@ -180,6 +180,37 @@ def _judge(ix: IX.Index, select, where, order, group, text_out: str, count_of=No
     return probs
 
 
+# ---- the same query at other verbosity levels ------------------------------------------------
+VERBOSE_QUERIES = ["S note W o O alpha G none", "S note G file", "S # O alpha", "S count(note) W -", "S note W +j1 O create G type",
+                   "S links O alpha G file"]
+
+
+def _run_verbose_case(ctx, case) -> F.Outcome:
+    """`zorg -v query` / `zorg -vv query` through the CLI: whatever else is printed at a higher verbosity
+    (the SQL statement), the rendering of the selection is the same text, at the end of the output."""
+    _, qi, flag = case
+    ix = _index("K4")
+    H.freeze(DAY)
+    out = F.Outcome()
+    q = VERBOSE_QUERIES[qi]
+    plain = H.run_cli(ix.zdir, "query", q, day=DAY)
+    loud = H.run_cli(ix.zdir, flag, "query", q, day=DAY)
+    out.obs = H.digest([plain.out, loud.out[-len(plain.out):] if plain.out else ""])
+    out.nontrivial = H.digest(case)
+    problem = None
+    if plain.status != "ok" or plain.value != 0 or not plain.out.strip():
+        raise H.HarnessError(f"plain CLI query failed or empty: {q!r} {plain.status} {plain.value} {plain.err[-300:]}")
+    if loud.status != "ok" or loud.value != 0:
+        problem = ("verbose-query-failed", {"status": loud.status, "exit": loud.value, "stderr": loud.err[-600:]})
+    elif not loud.out.rstrip("\n").endswith(plain.out.rstrip("\n")):
+        problem = ("verbose-query-renders-another-selection", {"plain_stdout": plain.out[-1500:], "verbose_stdout_tail": loud.out[-1500:]})
+    if problem:
+        out.ok = False
+        out.sig = problem[0]
+        out.detail = {"index": "K4", "query": q, "flag": flag, **problem[1]}
+    return out
+
+
 # ---- a note line copied to another page: two notes share a ZID ------------------------------
 DUP_FILES = {
     "a.zo": "# A #pa\n\n- 240101#A1 early on a #t1\n- 240105#DD shared zid, the copy on a @ca #t1\n- 240107#A3 late on a #t1\n",
@@ -256,6 +287,8 @@ def _k(n, key):
 def _run_case(ctx, case) -> F.Outcome:
     if case[0] in SMALL:
         return _run_dup_case(ctx, case)
+    if case[0] == "verbose":
+        return _run_verbose_case(ctx, case)
     name, select, wi, order, group = case
     ix = _index(name)
     H.freeze(DAY)
@@ -331,6 +364,9 @@ def _cases(ctx):
                 for o in orders_val:
                     cases.append(["K4H", sel, wi, o, g])
                     cases.append(["K4H", ["count", sel], wi, o, g])
+    for qi in range(len(VERBOSE_QUERIES)):
+        for flag in ("-v", "-vv", "-vvv"):
+            cases.append(["verbose", qi, flag])
     for w, o, g in DUP_QUERIES:
         cases.append(["DUP", w, o, g])
     for w, o, g in PATHS_QUERIES:
@@ -339,6 +375,8 @@ def _cases(ctx):
 
 
 def _sample(case):
+    if case[0] == "verbose":
+        return {"cli": f"zorg {case[2]} query {VERBOSE_QUERIES[case[1]]!r}"}
     if case[0] in SMALL:
         return {"index": case[0] + " (two notes share a ZID / '.zo' inside page paths)", "query": Q.render_query(["note"], case[1], case[2], case[3])}
     name, select, wi, order, group = case
